@@ -472,6 +472,53 @@ func minInt(a, b int) int {
 	return b
 }
 
+// MinSize is the minimal wire size of a value of type t (0 only for structs without content).
+func (c *Ctx) MinSize(t schema.Type) int { return c.minSize(t) }
+
+// HasZeroSizeArrayElem reports whether a record (transitively) contains an array whose
+// elements can have zero wire size: a count of such elements is not bounded by the input.
+func (c *Ctx) HasZeroSizeArrayElem(d *schema.Def) bool {
+	seen := map[string]bool{}
+	var walkT func(t schema.Type) bool
+	var walkD func(d *schema.Def) bool
+	walkT = func(t schema.Type) bool {
+		switch t.Kind {
+		case "array":
+			if c.minSize(*t.Elem) == 0 {
+				return true
+			}
+			return walkT(*t.Elem)
+		case "map":
+			return walkT(*t.Val)
+		}
+		if schema.IsPrimitive(t.Name) {
+			return false
+		}
+		if dd := c.S.Find(t.Name); dd != nil {
+			return walkD(dd)
+		}
+		return false
+	}
+	walkD = func(d *schema.Def) bool {
+		if seen[d.Name] {
+			return false
+		}
+		seen[d.Name] = true
+		for _, f := range d.Fields {
+			if walkT(f.Type) {
+				return true
+			}
+		}
+		for _, b := range d.Branches {
+			if walkD(b.Def) {
+				return true
+			}
+		}
+		return false
+	}
+	return walkD(d)
+}
+
 // minSize is the minimal wire size of a value of type t (0 only for empty structs).
 func (c *Ctx) minSize(t schema.Type) int {
 	switch t.Kind {
@@ -503,9 +550,6 @@ func (c *Ctx) minSize(t schema.Type) int {
 				continue
 			}
 			n += c.minSize(f.Type)
-			if n > 0 {
-				return n
-			}
 		}
 		return n
 	}
